@@ -261,6 +261,16 @@ def run(tier, seed):
             oc = name2code[other]
             lcases.append({'id': 'lk-out-%d' % i, 'sub': 'ksim', 'cfg': '(deflocalkeys-linux %s %d)\n(defsrc %s)\n(deflayer base %s)' % (nm, code, other, nm),
                            'hist': ['d%d' % oc, 't3', 'u%d' % oc, 't3'], 'nm': nm, 'code': code})
+        # ... and a locally named key that the layer leaves transparent, maps to itself by name, or that is only a deflayermap input
+        # comes out as its own code: every code without a built-in name gets a local name here (240 = KEY_UNKNOWN among them)
+        unnamed = [c for c in known if c not in set(name2code.values()) and is_plain(vmap[c]) and not (imin <= c <= imax) and c != 0]
+        pick = sorted(set(unnamed[:3] + [c for c in unnamed if c in (240,)] + rng.sample(unnamed, min(len(unnamed), 6 if tier == 'quick' else 60))))
+        for code in pick:
+            for form, cfgt in (('transparent', '(deflocalkeys-linux lk %d)\n(defsrc lk)\n(deflayer base _)'),
+                               ('itself', '(deflocalkeys-linux lk %d)\n(defsrc lk)\n(deflayer base lk)'),
+                               ('layermap-input', '(deflocalkeys-linux lk %d)\n(defsrc a)\n(deflayer base a)\n(deflayermap (other) lk x)')):
+                lcases.append({'id': 'lk-id-%d-%s' % (code, form), 'sub': 'ksim', 'cfg': cfgt % code,
+                               'hist': ['d%d' % code, 't3', 'u%d' % code, 't3'], 'nm': 'lk (%s)' % form, 'code': code})
         lres = run_impl('pinfo', [c for c in lcases if c['sub'] == 'pinfo'])
         lres.update(run_impl('ksim', [c for c in lcases if c['sub'] == 'ksim']))
         for c in lcases:
